@@ -19,6 +19,7 @@ import Pyc.Driver.SizeDom
 import Pyc.Driver.Metadata
 import Pyc.Driver.NativeScript
 import Pyc.Driver.Pool
+import Pyc.Driver.WitnessCodec
 open Lean Pyc.Driver
 
 /-- dispatch on the prefix of `op` -/
@@ -45,6 +46,7 @@ def dispatch (op : String) (j : Json) : R Json :=
   else if op.startsWith "md." then handleMetadata op j
   else if op.startsWith "ns." then handleNativeScript op j
   else if op.startsWith "pool." then handlePool op j
+  else if op.startsWith "wc." then handleWitnessCodec op j
   else throw s!"unknown op {op}"
 
 def handleLine (line : String) : String :=
